@@ -142,17 +142,23 @@ def connect_wire_rules(ctx, q=True):
     import c19
     recs, _, _, _ = ctx.gen("HeaderRules.tla", "GEN_HeaderRulesApply_Q.cfg")
     J = lambda cs: "".join(cs)
-    groups = {}
+    groups, own = {}, {}
     for r in recs:
-        if "rules" not in r or r["hdr"]:
+        if "rules" not in r:
             continue
         rules = [J(x) for x in r["rules"]]
         if not all(("x-b" in x.lower()) or x == "-x-*" for x in rules):
             continue
-        groups[tuple(rules)] = [f for f in r["out"] if J(f["n"]) == "x-b"]
+        if not r["hdr"]:
+            groups[tuple(rules)] = [f for f in r["out"] if J(f["n"]) == "x-b"]
+        elif [(J(f["sp"]), J(f["v"])) for f in r["hdr"]] == [("X-B", "4")]:
+            # the same list on a client's CONNECT that brings the field itself and is relayed to the upstream proxy
+            own[tuple(rules)] = [f for f in r["out"] if J(f["n"]) == "x-b"]
     keys = sorted(groups)
     order_dependent = [k for k in keys if len(k) > 1 and any(x.startswith(("-", "%")) for x in k[1:]) and not k[0].startswith(("-", "%"))]
-    pick = [k for k in keys if len(k) == 1] + vlib.sample_list(ctx.rng, order_dependent, 8 if q else 80)
+    # a respelling and then an add (the field then sits under a key that is not the canonical one): every list of two
+    rename_add = [k for k in keys if len(k) == 2 and k[0].startswith("%") and not k[1].startswith(("-", "%")) and not k[1].endswith(";")]
+    pick = [k for k in keys if len(k) == 1] + rename_add[:4] + vlib.sample_list(ctx.rng, order_dependent, 8 if q else 80)
     fwd = ctx.build_cmd_forwarder()
     for rules in pick:
         want = groups[rules]
@@ -172,23 +178,28 @@ def connect_wire_rules(ctx, q=True):
                 except OSError:
                     time.sleep(0.05)
             tgt = "127.0.0.1:%d" % origin.port
-            c19.http_exchange(("127.0.0.1", addr), ("GET https://%s/c HTTP/1.1\r\nHost: %s\r\nConnection: close\r\n\r\n" % (tgt, tgt)).encode())
-            heads = [h for h in upstream.seen if h.startswith("CONNECT ")]
-            head = heads[0] if heads else ""
-            got = [(ln.split(":", 1)[0], ln.split(":", 1)[1].strip()) for ln in head.split("\r\n")[1:] if ln.lower().startswith("x-b:")]
-            ctx.evaluations += 1
-            ctx.nontrivial.add("connect-wire-rules:%s" % "|".join(rules))
-            exp_vals = [J(f["v"]) for f in want]
-            ok = head != "" and [v for _, v in got] == exp_vals
-            for (sp, _), f in zip(got, want):
-                if ok and f.get("pin"):
-                    ok = sp == J(f["sp"])
-            if not ok:
-                what = "no-connect" if not head else "kept" if len(got) > len(exp_vals) else "dropped" if len(got) < len(exp_vals) else "altered"
-                ctx.violation("C16:wire:connect-header:%s" % what, {"rules": list(rules), "upstream_proxy_saw": got,
-                              "expected": [(J(f["sp"]) if f.get("pin") else "(any spelling)", J(f["v"])) for f in want], "head": head[:300]})
-            else:
-                ctx.traces_ok += 1
+            for who, want, req in (("transport", want, "GET https://%s/c HTTP/1.1\r\nHost: %s\r\nConnection: close\r\n\r\n" % (tgt, tgt)),
+                                   ("client", own.get(rules), "CONNECT %s HTTP/1.1\r\nHost: %s\r\nX-B: 4\r\n\r\n" % (tgt, tgt))):
+                if want is None:
+                    continue
+                del upstream.seen[:]
+                c19.http_exchange(("127.0.0.1", addr), req.encode())
+                heads = [h for h in upstream.seen if h.startswith("CONNECT ")]
+                head = heads[0] if heads else ""
+                got = [(ln.split(":", 1)[0], ln.split(":", 1)[1].strip()) for ln in head.split("\r\n")[1:] if ln.lower().startswith("x-b:")]
+                ctx.evaluations += 1
+                ctx.nontrivial.add("connect-wire-rules:%s:%s" % (who, "|".join(rules)))
+                exp_vals = [J(f["v"]) for f in want]
+                ok = head != "" and [v for _, v in got] == exp_vals
+                for (sp, _), f in zip(got, want):
+                    if ok and f.get("pin"):
+                        ok = sp == J(f["sp"])
+                if not ok:
+                    what = "no-connect" if not head else "kept" if len(got) > len(exp_vals) else "dropped" if len(got) < len(exp_vals) else "altered"
+                    ctx.violation("C16:wire:connect-header:%s:%s" % (who, what), {"rules": list(rules), "upstream_proxy_saw": got,
+                                  "expected": [(J(f["sp"]) if f.get("pin") else "(any spelling)", J(f["v"])) for f in want], "head": head[:300]})
+                else:
+                    ctx.traces_ok += 1
         finally:
             p.terminate()
             try:
